@@ -113,7 +113,7 @@ TEnd ==
         \* a successful cancel: the diamond is canceled by this client
         /\ (Ev.role = "cancel" /\ Ev.ok) => (saw = "open" /\ dDone = "canceled" /\ dBy = c)
         \* a successful split run: its generation is the one recorded
-        /\ (Ev.role = "split" /\ Ev.ok) => (Ev.split \in DOMAIN sDone /\ sDone[Ev.split] = Ev.gen)
+        /\ (Ev.role = "split" /\ Ev.ok) => (saw = "open" /\ Ev.split \in DOMAIN sDone /\ sDone[Ev.split] = Ev.gen)
         \* a split that was already done when the run started is refused
         /\ (Ev.role = "split" /\ Ev.sawdone) => ~Ev.ok
   /\ UNCHANGED <<dDone, dBy, sRunning, sDone, lists, bIdx, bDesc, ready, startDone, snapDone, muts, scen>>
